@@ -37,6 +37,18 @@ import props.c14 as c14
 import props.c15 as c15
 import props.c17 as c17
 import props.c20 as c20
+import props.c06_fixed as c06f
+import props.c07 as c07
+
+from spacepackets.cfdp.pdu.ack import AckPdu
+from spacepackets.cfdp.pdu.prompt import PromptPdu
+from spacepackets.cfdp.pdu.keep_alive import KeepAlivePdu
+from spacepackets.cfdp.pdu.nak import NakPdu
+from spacepackets.cfdp.pdu.file_data import FileDataPdu
+from spacepackets.cfdp.pdu.eof import EofPdu
+from spacepackets.cfdp.pdu.finished import FinishedPdu, FinishedParams, DeliveryCode, FileStatus
+from spacepackets.cfdp.pdu.metadata import MetadataPdu, MetadataParams
+from spacepackets.cfdp.defs import ConditionCode, ChecksumType
 
 
 def crc16(data: bytes) -> int:
@@ -211,7 +223,109 @@ def op_c09_stream(a):
     return {"units": units}
 
 
-OPS = {"c09_unit": op_c09_unit, "c09_split": op_c09_split, "c09_stream": op_c09_stream}
+# ---------------------------------------------------------------------------------------------
+# CFDP PDU kinds (second half of the statement): decoded as the PDU alone, or refused (documented)
+# ---------------------------------------------------------------------------------------------
+class PduKind:
+    def __init__(self, name: str, decode, fields):
+        self.name = name
+        self.decode = decode
+        self.fields = fields
+
+
+def _eof_fields(p):
+    fl = p.fault_location
+    return {"packet_len": int(p.packet_len), "crc": int(p.pdu_header.crc_flag), "cond": int(p.condition_code),
+            "checksum": hx(p.file_checksum), "size": int(p.file_size),
+            "fault": None if fl is None else hx(bytes(fl.pack()))}
+
+
+def _fin_fields(p):
+    fl = p.fault_location
+    return {"packet_len": int(p.packet_len), "crc": int(p.pdu_header.crc_flag), "cond": int(p.condition_code),
+            "delivery": int(p.delivery_code), "status": int(p.file_status),
+            "responses": [hx(bytes(t.pack())) for t in (p.file_store_responses or [])],
+            "fault": None if fl is None else hx(bytes(fl.pack()))}
+
+
+def _md_fields(p):
+    return {"packet_len": int(p.packet_len), "crc": int(p.pdu_header.crc_flag), "closure": bool(p.closure_requested),
+            "cktype": int(p.checksum_type), "size": int(p.file_size), "src": p.source_file_name, "dst": p.dest_file_name,
+            "options": [hx(bytes(t.pack())) for t in (p.options or [])]}
+
+
+PDU_KINDS: Dict[str, PduKind] = {k.name: k for k in [
+    PduKind("ack", AckPdu.unpack, c06f._ack_fields),
+    PduKind("prompt", PromptPdu.unpack, c06f._prompt_fields),
+    PduKind("keep_alive", KeepAlivePdu.unpack, c06f._ka_fields),
+    PduKind("nak", NakPdu.unpack, c06f._nak_fields),
+    PduKind("file_data", FileDataPdu.unpack, c07._pdu_fields),
+    # models not merged yet: implementation side only (op c09_pdu_tie)
+    PduKind("eof", EofPdu.unpack, _eof_fields),
+    PduKind("finished", FinishedPdu.unpack, _fin_fields),
+    PduKind("metadata", MetadataPdu.unpack, _md_fields),
+]}
+MODELLED_PDUS = ["ack", "prompt", "keep_alive", "nak", "file_data"]
+TIE_ONLY_PDUS = ["eof", "finished", "metadata"]
+
+
+def _pdu_try(k: PduKind, buf: bytes):
+    """('ok', fields) | ('err', category) for documented refusals; undocumented exceptions propagate"""
+    try:
+        return "ok", k.fields(k.decode(buf))
+    except SelfCheckFailure:
+        raise
+    except BaseException as e:  # noqa
+        cat = exc_category(e)
+        if cat in DOCUMENTED:
+            return "err", cat
+        raise
+
+
+def _pdu_eval(a) -> Dict[str, Any]:
+    """the rule of the Lean op `c09_pdu`, on the real decoder, plus the property at this point of its
+    quantifier (every check holds for EVERY accepted buffer: theorems C09_pdu_declared / C09_pdu_trailing)"""
+    k = PDU_KINDS[a["kind"]]
+    unit, suffix, alt = unhx(a["unit"]), unhx(a["suffix"]), unhx(a["alt"])
+    buf = unit + suffix
+    trailing = "none" if not suffix else "decoded"
+    try:
+        obj = k.decode(buf)
+    except BaseException as e:  # noqa
+        if suffix and exc_category(e) in DOCUMENTED:
+            buf, trailing = unit, "refused"          # one of the two allowed behaviours
+            obj = k.decode(buf)
+        else:
+            raise
+    f = k.fields(obj)
+    n = int(f["packet_len"])
+    crc = 2 if int(f["crc"]) == 1 else 0
+    what = f"{a['kind']} PDU: "
+    if n > len(buf):
+        raise SelfCheckFailure(what + f"accepted, but packet_len {n} exceeds the buffer ({len(buf)} octets)")
+    st, g = _pdu_try(k, buf[:n])
+    prefix = "same" if (st == "ok" and g == f) else ("differs" if st == "ok" else "err:" + g)
+    if prefix != "same":
+        raise SelfCheckFailure(what + f"decoding exactly the declared PDU ({n} octets) gives '{prefix}', not the PDU decoded from the longer buffer")
+    st, g = _pdu_try(k, buf[:n] + alt)
+    if st == "ok" and g != f:
+        raise SelfCheckFailure(what + f"followed by {len(alt)} other octets the declared PDU decodes to different parameters (trailing octets folded in)")
+    return {"fields": f, "len": n, "data_end": n - crc, "inside": True, "prefix": prefix, "extended_ok": True,
+            "trailing": trailing}
+
+
+def op_c09_pdu(a):
+    return _pdu_eval(a)
+
+
+def op_c09_pdu_tie(a):
+    """kinds whose model has not been merged: the same evaluation on the real decoder alone"""
+    _pdu_eval(a)
+    return {"checked": True}
+
+
+OPS = {"c09_unit": op_c09_unit, "c09_split": op_c09_split, "c09_stream": op_c09_stream,
+       "c09_pdu": op_c09_pdu, "c09_pdu_tie": op_c09_pdu_tie}
 
 
 # ---------------------------------------------------------------------------------------------
@@ -354,6 +468,72 @@ def suffixes(rng: random.Random, kind: str, cfg, raw: bytes) -> List[Tuple[str, 
     return out
 
 
+PDU_KEYS = ["fields", "len", "data_end", "inside", "prefix", "extended_ok"]   # "trailing" is informational
+
+
+def gen_pdu(kind: str, rng: random.Random, crc: Optional[int] = None, large: Optional[int] = None) -> bytes:
+    """octets of one valid PDU: independent encoders for the modelled kinds, the real encoder for the tie-only ones"""
+    fix = {}
+    if crc is not None:
+        fix["crc"] = crc
+    if large is not None:
+        fix["large"] = large
+    if kind == "file_data":
+        conf = c07.rand_conf(rng, **fix)
+        return c07.spec_fd(c07.rand_args(rng, conf=conf))
+    a = c06f.rand_conf(rng, **fix)
+    if kind == "ack":
+        return c06f.spec_ack(a, rng.choice([4, 5]), rng.choice(c06f.COND_MEMBERS), rng.randint(0, 3))
+    if kind == "prompt":
+        return c06f.spec_prompt(a, rng.randint(0, 1))
+    if kind == "keep_alive":
+        return c06f.spec_ka(a, c06f.fss_val(rng, a["large"]))
+    if kind == "nak":
+        n = rng.choice([0, 0, 1, 2, 3, 7])
+        return c06f.spec_nak(a, c06f.fss_val(rng, a["large"]), c06f.fss_val(rng, a["large"]), c06f.rand_segs(rng, a["large"], n))
+    conf = c06f._conf(a)
+    if kind == "eof":
+        cond = rng.choice([ConditionCode.NO_ERROR, ConditionCode.FILE_CHECKSUM_FAILURE, ConditionCode.CANCEL_REQUEST_RECEIVED])
+        fault = None if cond == ConditionCode.NO_ERROR else EntityIdTlv(rbytes(rng, rng.choice([1, 2, 4])))
+        return bytes(EofPdu(conf, rbytes(rng, 4), c06f.fss_val(rng, a["large"]), fault, cond).pack())
+    if kind == "finished":
+        cond = rng.choice([ConditionCode.NO_ERROR, ConditionCode.FILESTORE_REJECTION, ConditionCode.CHECK_LIMIT_REACHED])
+        fault = None if cond == ConditionCode.NO_ERROR else EntityIdTlv(rbytes(rng, rng.choice([1, 2, 4])))
+        resp = []
+        for _ in range(rng.choice([0, 0, 1, 2])):
+            resp.append(FileStoreResponseTlv.unpack(enc_fs(rng, True)))
+        params = FinishedParams(condition_code=cond, delivery_code=DeliveryCode(rng.randint(0, 1)),
+                                file_status=FileStatus(rng.randint(0, 3)), file_store_responses=resp, fault_location=fault)
+        return bytes(FinishedPdu(conf, params).pack())
+    if kind == "metadata":
+        params = MetadataParams(closure_requested=bool(rng.randint(0, 1)), checksum_type=ChecksumType(rng.choice([0, 3, 15])),
+                                file_size=c06f.fss_val(rng, a["large"]),
+                                source_file_name=c08.rand_utf8(rng, 12).decode() or "a", dest_file_name=c08.rand_utf8(rng, 12).decode() or "b")
+        opts = [CfdpTlv.unpack(enc_tlv(rng.choice([2, 4, 5, 6]) if False else 5, rbytes(rng, rng.choice([0, 1, 4])))) for _ in range(rng.choice([0, 0, 1, 2]))]
+        return bytes(MetadataPdu(conf, params, opts or None).pack())
+    raise KeyError(kind)
+
+
+def pdu_suffixes(rng: random.Random, kind: str, raw: bytes) -> List[Tuple[str, bytes]]:
+    large = raw[0] & 1
+    w = 8 if large else 4
+    return [
+        ("empty", b""),
+        ("one-octet", rbytes(rng, 1)),
+        ("8-octets", rbytes(rng, 8)),                              # one 32-bit segment request
+        ("16-octets", rbytes(rng, 16)),                            # one 64-bit segment request
+        ("segment-request", rbytes(rng, 2 * w)),                   # exactly one request of this PDU's width
+        ("valid-tlv", enc_tlv(rng.choice(c08.TLV_TYPES), rbytes(rng, rng.choice([0, 1, 4, 9])))),
+        ("fs-response-tlv", enc_fs(rng, True)),
+        ("same-kind", gen_pdu(kind, rng)),
+        ("itself", raw),
+        ("other-kind", gen_pdu(rng.choice([k for k in MODELLED_PDUS if k != kind]), rng)),
+        ("random", rbytes(rng, rng.choice([2, 3, 5, 7, 13, 30, 64]))),
+        ("crc-trailer", crc16(raw).to_bytes(2, "big")),            # a valid CRC of the whole PDU, after the PDU
+        ("file-data", rbytes(rng, 40)),
+    ]
+
+
 def unit_case(kind: str, cfg, raw: bytes, sfx: bytes, alt: bytes, tag: str, packed: bool = True,
               expect: str = "valid") -> Case:
     op = {"op": "c09_unit", "kind": kind, "cfg": cfg, "unit": hx(raw), "suffix": hx(sfx), "alt": hx(alt)}
@@ -390,6 +570,8 @@ class C09(Prop):
 
     def nontrivial(self, c: Case) -> bool:
         o = c.op
+        if o["op"] in ("c09_pdu", "c09_pdu_tie"):
+            return True
         if "unit" in o:
             return (o["unit"] + o["suffix"]).strip("0") != ""
         return any(r.strip("0") for r in o.get("raws", []))
@@ -441,6 +623,8 @@ class C09(Prop):
         yield from self.any_cases(rng, thorough)
         # --- splitting concatenations by the reported lengths ---
         yield from self.split_cases(rng, thorough)
+        # --- second half: complete CFDP PDUs followed by further octets ---
+        yield from self.pdu_cases(rng, thorough)
 
     def any_cases(self, rng, thorough) -> Iterator[Case]:
         n = 400 if thorough else 70
@@ -493,6 +677,36 @@ class C09(Prop):
             yield Case({"op": "c09_unit", "kind": "fs_response" if resp else "fs_request", "cfg": {},
                         "unit": hx(bytes(raw)), "suffix": hx(rbytes(rng, rng.choice([0, 1, 5]))),
                         "alt": hx(rbytes(rng, 3))}, "any", tag="fs-slack")
+
+    def pdu_cases(self, rng, thorough) -> Iterator[Case]:
+        per = 160 if thorough else 28
+        for kind in MODELLED_PDUS + TIE_ONLY_PDUS:
+            op = "c09_pdu" if kind in MODELLED_PDUS else "c09_pdu_tie"
+            keys = PDU_KEYS if kind in MODELLED_PDUS else None
+            for i in range(per):
+                # every CRC x large-file combination in turn: the CRC-on configurations are the ones in
+                # which "to the end of the buffer" and "to the end of the parameters" differ
+                raw = gen_pdu(kind, rng, crc=i & 1, large=(i >> 1) & 1)
+                sfxs = pdu_suffixes(rng, kind, raw)
+                for j, (name, sfx) in enumerate(sfxs):
+                    alt = sfxs[(j + 1 + i) % len(sfxs)][1] or b"\x5a"
+                    yield Case({"op": op, "kind": kind, "unit": hx(raw), "suffix": hx(sfx), "alt": hx(alt)}, "valid",
+                               tag=f"pdu-{kind}+{name}", keys=keys)
+        # every accepted buffer, not only packed ones: perturbed PDUs and random octets
+        for kind in MODELLED_PDUS:
+            for _ in range(200 if thorough else 40):
+                buf = bytearray(gen_pdu(kind, rng) + rbytes(rng, rng.choice([0, 0, 1, 8, 20])))
+                mode = rng.randint(0, 3)
+                if mode == 0:
+                    pos = rng.randrange(min(len(buf), 12))
+                    buf[pos] = rng.choice([0, 1, 0x7F, 0x80, 0xFF, (buf[pos] + 1) & 0xFF, (buf[pos] - 1) & 0xFF])
+                elif mode == 1:
+                    buf = buf[: rng.randint(0, len(buf))]
+                elif mode == 2:
+                    buf[1], buf[2] = 0, rng.randint(0, 40)          # declared data-field length rewritten
+                k2 = kind if rng.random() < 0.7 else rng.choice(MODELLED_PDUS)
+                yield Case({"op": "c09_pdu", "kind": k2, "unit": hx(bytes(buf)), "suffix": "", "alt": hx(rbytes(rng, 3))},
+                           "any", tag=f"pdu-any-{k2}", keys=PDU_KEYS)
 
     def split_cases(self, rng, thorough) -> Iterator[Case]:
         reps = 60 if thorough else 14
